@@ -36,14 +36,31 @@ def run_harnesses(c):
         r["reason"] = "kani timeout"
         return r
     out = p.stdout + p.stderr
-    ok = set(re.findall(r"Checking harness ([\w:]+)\.\.\.", out))
-    # terse format: per harness "VERIFICATION:- SUCCESSFUL|FAILED"
-    blocks = re.split(r"Checking harness ", out)[1:]
+    # with -j N the output is "Thread k: Checking harness X..." followed later by a "Thread k: " result block
     seen = {}
-    for b in blocks:
-        name = b.split("...", 1)[0].strip()
-        m = re.search(r"VERIFICATION:- (SUCCESSFUL|FAILED)", b)
-        seen[name] = (m.group(1) if m else "UNKNOWN", b)
+    cur_of_thread = {}
+    cur_block = None
+    for ln in out.splitlines():
+        m = re.match(r"(?:Thread (\d+): )?Checking harness ([\w:]+)\.\.\.", ln)
+        if m:
+            cur_of_thread[m.group(1) or "0"] = m.group(2)
+            if m.group(1) is None:
+                cur_block = m.group(2)
+                seen[cur_block] = ["UNKNOWN", ""]
+            continue
+        m = re.match(r"Thread (\d+):\s*$", ln)
+        if m:
+            cur_block = cur_of_thread.get(m.group(1))
+            if cur_block:
+                seen[cur_block] = ["UNKNOWN", ""]
+            continue
+        if ln.startswith("Manual Harness Summary") or ln.startswith("Summary:"):
+            cur_block = None
+        if cur_block:
+            seen[cur_block][1] += ln + "\n"
+            m = re.search(r"VERIFICATION:- (SUCCESSFUL|FAILED)", ln)
+            if m:
+                seen[cur_block][0] = m.group(1)
     for h in c["harnesses"]:
         key = [k for k in seen if k.endswith(h)]
         r["obligations"] += 1
